@@ -114,6 +114,17 @@ func init() {
 		Gen: func(t *rapid.T) interface{} {
 			k := c19Kinds[uni(t, "scenario", 0, len(c19Kinds)-1)]
 			inner := registry[k].Gen(t)
+			if c18, ok := inner.(*C18Case); ok && c18.Engines > 1 {
+				// several engines on one builder: children that store into the shared host objects
+				// would conflict on user data; they become local assignments
+				for _, blk := range c18.Blocks {
+					for i := range blk {
+						if blk[i].Kind == "field" || blk[i].Kind == "nested" || blk[i].Kind == "nestedp" {
+							blk[i].Kind = "local"
+						}
+					}
+				}
+			}
 			b, err := json.Marshal(inner)
 			if err != nil {
 				t.Fatalf("inner case: %v", err)
